@@ -131,6 +131,37 @@ def _recipes(fn):
     return out
 
 
+def _forms(fn):
+    """{kind: frozenset of row normal forms}: every row a join iterator can yield, as a sequence in the algebra of
+    ladder.py (which source rows / fillers, concatenated in which order), per path through the function -- independent of
+    whether the row is built by extend(), by +, in a helper, or behind a merged if/else tail.  Names are canonical
+    (roles L / R, leading underscores stripped); locals bound before the loop are written in place."""
+    from ..ladder import paths, seq_eval, seq_exec
+    out = {}
+    for f in _all_functions(fn):
+        node = ast.fix_missing_locations(_Canon().visit(copy.deepcopy(f.node)))
+        if not any(isinstance(x, ast.Yield) for x in ast.walk(node)):
+            continue
+        try:
+            pths = paths(node.body, {}, enter_loops=True, limit=400)
+        except RecursionError:
+            continue
+        for pth in pths:
+            env = {}
+            for st in pth.effects:
+                ys = [x for x in ast.walk(st) if isinstance(x, ast.Yield)] if not isinstance(st, (ast.For, ast.While, ast.With)) else []
+                if ys and ys[0].value is not None:
+                    segs = seq_eval(ys[0].value, env, {})
+                    txt = ' + '.join('%s%s' % (a, (' via ' + b) if b else '') for a, b in segs)
+                    l = bool(re.search(r'\bL\b', txt))
+                    r = bool(re.search(r'\bR\b', txt))
+                    kind = 'matched' if (l and r) else ('left-only' if l else ('right-only' if r else 'other'))
+                    out.setdefault(kind, set()).add(segs)
+                else:
+                    seq_exec([st], env, {})
+    return {k: frozenset(v) for k, v in out.items()}
+
+
 def run(ctx):
     rep = ctx.report
     from ..typestate import check_sentinels as _sentinels
@@ -179,9 +210,15 @@ def run(ctx):
     ctx.attempt(r72, ctx, rep)
     ctx.attempt(r73, ctx, rep)
     from .common import check_side_mismatches as _sides
+    from .common import check_selector_truth as _seltruth
+    rep.rule('R7.10', 'a key selector (name or position; 0 and \'\' are valid) is never tested for truth')
+    ctx.floor('selector_functions', ctx.attempt(_seltruth, ctx, rep, 'R7.10', ctx.functions(
+        ['petl.transform.hashjoins', 'petl.util.lookups'])) or 0, 6)
     rep.rule('R7.9', 'a key / value getter built from the header of one table is applied to rows of that table only')
     ctx.floor('two_table_functions', ctx.attempt(_sides, ctx, rep, 'R7.9', ctx.functions(
         ['petl.transform.hashjoins', 'petl.transform.joins'])) or 0, 6)
+    rep.rule('R7.11', 'the sort-merge operators the hash joins must agree with handle an exhausted side and a None key correctly (C06 R6.5: C20 R20.1/R20.4/R20.5 and C04 R4.3 on the merge loops)')
+    ctx.attempt(r711, ctx, rep)
     from .plumbing import check_plumbing
     rep.rule('R7.5', 'view -> iterator plumbing of the hash joins: self.X reaches the parameter named X')
     ctx.floor('plumbing_sites', check_plumbing(ctx, rep, 'R7.5', ['petl.transform.hashjoins']), 25)
@@ -300,6 +337,30 @@ def r71(ctx, rep, fns):
                         rep.held('R7.1', fn, '%s row: %s' % (kind, ' ; '.join(texts))[:100],
                                  'same recipe as %d siblings once hoisted invariants are written in place' % n, y)
                         continue
+                # the same rows whatever the spelling: compare the sequence normal forms of every row the two can yield
+                ref_fn = [f2 for f2, t2, s2, _ in items if t2 == best][0]
+                mine, theirs = _forms(fn).get(kind), _forms(ref_fn).get(kind)
+                # (the sequence algebra does not model stores into single positions -- the key cells of a right-only row:
+                # such recipes are compared as statements only)
+                positional = any(isinstance(x, ast.Subscript) and isinstance(x.ctx, ast.Store)
+                                 for st0 in list(stmts) + list(ref) for x in ast.walk(st0))
+                if mine and theirs and mine == theirs and not positional:
+                    rep.held('R7.1', fn, '%s row: %s' % (kind, ' ; '.join(texts))[:100],
+                             'yields the same row sequences as %s (normal form)' % ref_fn.name, y)
+                    # rows of the other kinds that now come out of the same (merged) yield
+                    allmine = _forms(fn)
+                    for k2 in ('matched', 'left-only'):
+                        if k2 == kind or k2 not in allmine or any(f3 is fn and kk == k2 for kk, itx in by_kind.items() for f3, _, _, _ in itx):
+                            continue
+                        sib = [f2 for f2 in fns if f2 is not fn and k2 in _forms(f2)]
+                        agree = [f2 for f2 in sib if _forms(f2)[k2] == allmine[k2]]
+                        if sib and not agree:
+                            rep.violated('R7.1', fn, '%s row (merged yield)' % k2,
+                                         '%s yields %s rows as %s, its siblings as %s' % (
+                                             fn.name, k2, sorted(allmine[k2]), sorted(_forms(sib[0])[k2])), y)
+                        elif sib:
+                            rep.held('R7.1', fn, '%s row (merged yield)' % k2, 'same row sequences as %s' % agree[0].name, y)
+                    continue
                 if shape(stmts) == shape(ref):
                     rep.undecided('R7.1', fn, '%s row' % kind, 'differs from its siblings only by local names', y)
                 else:
@@ -314,29 +375,46 @@ def _data_loop(fn):
     return loops[0] if len(loops) == 1 else None
 
 
+def _target_mapping(fn, atoms):
+    """(mapping name, key name): the mapping the builder returns (whatever the local is called) and the key variable
+    that is tested for membership in it"""
+    rets = [n for n in own_nodes(fn.node) if isinstance(n, ast.Return) and isinstance(n.value, ast.Name)]
+    names = {r.value.id for r in rets}
+    if len(names) != 1:
+        return None, None
+    d = names.pop()
+    for a in atoms:
+        m = re.match(r'^(\w+) in %s$' % re.escape(d), a)
+        if m:
+            return d, m.group(1)
+    return d, None
+
+
 def _classify_multi(fn):
     lp = _data_loop(fn)
     if lp is None:
         return None, 'no `for row in it` loop'
     atoms = collect_atoms(lp.body)
-    if atoms != ['k in dictionary']:
+    D, K = _target_mapping(fn, atoms)
+    if D is None or K is None or atoms != ['%s in %s' % (K, D)]:
         return None, 'tests %s' % atoms
+    DK = '%s[%s]' % (D, K)
     out = {}
     for present in (True, False):
         try:
-            oc = simulate(lp.body, {'k in dictionary': present})
+            oc = simulate(lp.body, {'%s in %s' % (K, D): present})
         except Unsupported as e:
             return None, str(e)
         texts = [norm(s) for s in oc.effects]
-        stores = [s for s in oc.effects if isinstance(s, ast.Assign) and norm(s.targets[0]) == 'dictionary[k]']
+        stores = [s for s in oc.effects if isinstance(s, ast.Assign) and norm(s.targets[0]) == DK]
         appends = [s for s in oc.effects if isinstance(s, ast.Expr) and isinstance(s.value, ast.Call)
                    and isinstance(s.value.func, ast.Attribute) and s.value.func.attr == 'append']
         if present:
-            reads = [s for s in oc.effects if isinstance(s, ast.Assign) and norm(s.value) == 'dictionary[k]']
+            reads = [s for s in oc.effects if isinstance(s, ast.Assign) and norm(s.value) == DK]
             if reads and appends and stores and norm(appends[0].value.func.value) == norm(reads[0].targets[0]) \
                     and norm(stores[-1].value) == norm(reads[0].targets[0]):
                 out[present] = 'append-to-existing'
-            elif appends and norm(appends[0].value.func.value) == 'dictionary[k]':
+            elif appends and norm(appends[0].value.func.value) == DK:
                 out[present] = 'append-to-existing'
             else:
                 out[present] = 'other: ' + ' ; '.join(texts[-3:])
@@ -353,16 +431,17 @@ def _classify_one(fn):
     if lp is None:
         return None, 'no `for row in it` loop'
     atoms = set(collect_atoms(lp.body))
-    if not atoms <= {'k in dictionary', 'strict'}:
+    D, K = _target_mapping(fn, sorted(atoms))
+    if D is None or K is None or not atoms <= {'%s in %s' % (K, D), 'strict'}:
         return None, 'tests %s' % sorted(atoms)
     out = {}
     for strict in (True, False):
         for present in (True, False):
             try:
-                oc = simulate(lp.body, {'k in dictionary': present, 'strict': strict})
+                oc = simulate(lp.body, {'%s in %s' % (K, D): present, 'strict': strict})
             except Unsupported as e:
                 return None, str(e)
-            stores = [s for s in oc.effects if isinstance(s, ast.Assign) and norm(s.targets[0]) == 'dictionary[k]']
+            stores = [s for s in oc.effects if isinstance(s, ast.Assign) and norm(s.targets[0]) == '%s[%s]' % (D, K)]
             if oc.kind == 'raise':
                 out[(strict, present)] = 'raise ' + (norm(oc.node.exc.func) if isinstance(oc.node.exc, ast.Call) else norm(oc.node.exc))
             elif stores:
@@ -423,3 +502,22 @@ def r73(ctx, rep):
             rep.held('R7.3', fn, norm(lp), 'rows are emitted inside the loop over the streamed side', lp)
         else:
             rep.violated('R7.3', fn, norm(lp), 'the probe loop collects instead of emitting: output order / laziness is lost', lp)
+
+
+# ------------------------------------------------------------------------ R7.11
+def r711(ctx, rep):
+    from . import c06
+    from ..report import Report
+    sub = Report('C06', ctx.tier, ctx.root)
+    saved = ctx.report
+    try:
+        c06.r64_65(ctx, sub)
+    finally:
+        ctx.report = saved
+    n = 0
+    for o in sub.obligations:
+        if o.rule == 'R6.5':
+            n += 1
+            rep.add('R7.11', (o.module, o.qualname), o.construct, o.status, o.message, o.lineno, o.detail)
+    if n < 6:
+        raise AnalysisError('anchor vanished: only %d merge-loop obligations' % n)
